@@ -49,37 +49,31 @@ func (d *dyingClient) Batch(ctx context.Context, ops ...*storage.Operation) erro
 }
 
 func TestVerifReplayC01RecoveryCrashLosesAcceptedRequest(t *testing.T) {
-	ext := storagetest.NewMockStorageExtension(nil)
-	base, err := ext.GetClient(context.Background(), component.KindExporter, component.ID{}, "")
-	require.NoError(t, err)
+	// the process may die after ANY storage call of the recovering start; the accepted request must
+	// survive every one of these crash points (a duplicate after a crash is allowed, a loss is not)
+	for dieAfter := 1; dieAfter <= 8; dieAfter++ {
+		ext := storagetest.NewMockStorageExtension(nil)
+		base, err := ext.GetClient(context.Background(), component.KindExporter, component.ID{}, "")
+		require.NoError(t, err)
 
-	// incarnation 1: accept one request and hand it to a consumer; die before it finishes
-	q1 := createTestPersistentQueueWithClient(base)
-	require.NoError(t, q1.Offer(context.Background(), uint64(42)))
-	_, req, _, ok := q1.Read(context.Background())
-	require.True(t, ok)
-	require.Equal(t, uint64(42), req)
-	// (process dies here: no OnDone, no Shutdown)
+		// incarnation 1: accept one request and hand it to a consumer; die before it finishes
+		q1 := createTestPersistentQueueWithClient(base)
+		require.NoError(t, q1.Offer(context.Background(), uint64(42)))
+		_, req, _, ok := q1.Read(context.Background())
+		require.True(t, ok)
+		require.Equal(t, uint64(42), req)
+		// (process dies here: no OnDone, no Shutdown)
 
-	// incarnation 2: recovery runs; the process dies right after the clean-up storage call.
-	// Storage calls of start-up: Batch(ri,wi) [1], Get(di) [2], Batch(retrieve) [3], Batch(cleanup) [4]
-	dying := &dyingClient{Client: base, dieAfter: 4}
-	_ = createTestPersistentQueueWithClient(dying)
+		// incarnation 2: recovery runs; the process dies after `dieAfter` storage calls
+		dying := &dyingClient{Client: base, dieAfter: dieAfter}
+		_ = createTestPersistentQueueWithClient(dying)
 
-	// incarnation 3: a healthy start. The accepted request must still be handed over.
-	q3 := createTestPersistentQueueWithClient(base)
-	require.Equal(t, int64(1), q3.Size()+int64(len(q3.currentlyDispatchedItems)), "the accepted request is neither queued nor recoverable")
-	got := make(chan uint64, 1)
-	go func() {
+		// incarnation 3: a healthy start. The accepted request must still be handed over.
+		q3 := createTestPersistentQueueWithClient(base)
+		require.GreaterOrEqual(t, q3.Size()+int64(len(q3.currentlyDispatchedItems)), int64(1),
+			"death after storage call %d of the recovering start: the accepted request is neither queued nor recoverable", dieAfter)
 		_, r, _, ok := q3.Read(context.Background())
-		if ok {
-			got <- r
-		}
-	}()
-	select {
-	case r := <-got:
-		require.Equal(t, uint64(42), r)
-	default:
+		require.True(t, ok)
+		require.Equal(t, uint64(42), r, "death after storage call %d: accepted request 42 was lost", dieAfter)
 	}
-	require.Equal(t, int64(1), q3.Size(), "accepted request 42 was lost by a crash during recovery")
 }
